@@ -10,6 +10,7 @@ import os
 import gridlib as gl
 import rltie
 import vlib
+import c08tables
 
 LEVEL = "proof"
 PID = "C08"
@@ -409,6 +410,9 @@ def run(res, tier, seed, replay_script=None):
         res.violation("correspondence", "model and implementation disagree on %d cases, e.g. %s" % (len(mism), mism[0][:300]),
                       {"kind": "correspondence-break", "correspondence": "Model.LowerSets.select_level / limits_box_full vs selectTensors / isLimitsBoxFull",
                        "examples": mism[:10]}, no_input=True)
+    # tensor selection of the six integer depth types and the declared polynomial space, with the exactness tables regenerated from the source
+    if not replay_script:
+        c08tables.run(res, tier, seed)
     rltie.report(res, rl_break)
     if proof_broken and not res.violations:
         res.violation("proof", "proof obligations of Properties_C08.v no longer check (%d/%d) %s" % (props["discharged"], props["obligations"], res.coverage["forbidden_tokens"][:2]),
@@ -435,5 +439,8 @@ def replay(path):
     import json
     rp = json.load(open(path))
     res = vlib.Result(PID, "quick", rp.get("seed", 1), LEVEL)
+    if rp.get("driver") == "seltabdrv":
+        c08tables.run(res, "quick", rp.get("seed", 1), replay_cases=rp.get("cases"))
+        return res.finish()
     run(res, "quick", rp.get("seed", 1), replay_script=rp.get("script"))
     return res.finish()
